@@ -122,3 +122,107 @@ def _(self, attribute, new_name):
     invariant(0, lambda _i: _i <= len(self.yaml_node.pairs)
               and self.yaml_node == old(self.yaml_node)
               and idx_of(self.yaml_node.pairs, attribute, _i) == -1)
+
+
+# ---- classification (C14: is_scalar/is_mapping/is_sequence classify nodes)
+
+@contract("yatiml/helpers.py::Node.is_scalar")
+def _(self, typ):
+    properties('C14')
+    sort('typ', 'Ty')
+    # documented argument domain: the scalar types, or absent
+    raises(ValueError, when=self.yaml_node.kind == SCALAR
+           and typ != T_ANYSENT and not is_scalar_type(typ))
+    ensures(result == (self.yaml_node.kind == SCALAR and (
+        typ == T_ANYSENT or self.yaml_node.tag == scalar_tag(typ))))
+    must_fail(result == (self.yaml_node.kind == SCALAR))
+
+
+@contract("yatiml/helpers.py::Node.is_empty")
+def _(self):
+    properties('C14')
+    requires(self.yaml_node.kind == SEQ or self.yaml_node.kind == MAP)
+    ensures(result == (len(self.yaml_node.items) == 0
+                       if self.yaml_node.kind == SEQ
+                       else len(self.yaml_node.pairs) == 0))
+
+
+@contract("yatiml/helpers.py::Node.make_mapping")
+def _(self):
+    properties('C14')
+    rebinds(self.yaml_node)
+    ensures(self.yaml_node.kind == MAP and self.yaml_node.tag == MAP_TAG
+            and len(self.yaml_node.pairs) == 0)
+
+
+@contract("yatiml/helpers.py::Node.set_value")
+def _(self, value):
+    properties('C14')
+    requires(not pv_is_node(value) and not pv_is_other(value))
+    rebinds(self.yaml_node)
+    # afterwards the node is a scalar spelled as documented, and -- for a
+    # node with a core-schema tag -- of the value's own scalar type
+    ensures(self.yaml_node.kind == SCALAR)
+    ensures(self.yaml_node.val == scalar_text(value))
+    ensures(implies(startswith(old(self.yaml_node).tag, CORE_PREFIX),
+                    self.yaml_node.tag == scalar_tag(typeof(value))))
+    ensures(implies(not startswith(old(self.yaml_node).tag, CORE_PREFIX),
+                    self.yaml_node.tag == old(self.yaml_node).tag))
+    ensures(self.yaml_node.smark == old(self.yaml_node).smark
+            and self.yaml_node.emark == old(self.yaml_node).emark)
+
+
+@contract("yatiml/helpers.py::Node.get_value")
+def _(self):
+    properties('C14')
+    requires(self.yaml_node.kind == SCALAR)
+    result_sort('PV')
+    # code-level contract in terms of Python's own int()/float(); the
+    # language obligations of C14 tie their domains to what a load constructs
+    raises(ValueError, when=(self.yaml_node.tag == INT_TAG
+                             and not int_dom(self.yaml_node.val))
+           or (self.yaml_node.tag == FLOAT_TAG
+               and not float_dom(self.yaml_node.val)))
+    raises(RuntimeError, when=not has_scalar_core_tag(self.yaml_node))
+    ensures(implies(self.yaml_node.tag == STR_TAG,
+                    result == mk_pv_str(self.yaml_node.val)))
+    ensures(implies(self.yaml_node.tag == INT_TAG, int_dom(self.yaml_node.val)
+                    and result == mk_pv_int(int_of_str(self.yaml_node.val))))
+    ensures(implies(self.yaml_node.tag == FLOAT_TAG,
+                    float_dom(self.yaml_node.val) and result == mk_pv_float(
+                        float_of_str(self.yaml_node.val))))
+    ensures(implies(self.yaml_node.tag == BOOL_TAG, result == mk_pv_bool(
+        self.yaml_node.val == 'true' or self.yaml_node.val == 'True'
+        or self.yaml_node.val == 'TRUE')))
+    ensures(implies(self.yaml_node.tag == NULL_TAG, pv_is_none(result)))
+    ensures(has_scalar_core_tag(self.yaml_node))
+
+
+@contract("yatiml/helpers.py::Node.seq_items")
+def _(self):
+    properties('C14')
+    requires(self.yaml_node.kind == SEQ)
+    result_sort('wrapseq')
+    ensures(len(result) == len(self.yaml_node.items))
+
+
+@contract("yatiml/helpers.py::Node.has_attribute_type")
+def _(self, attribute, typ):
+    properties('C14')
+    sort('typ', 'Ty')
+    requires(self.yaml_node.kind == MAP)
+    raises(SeasoningError, when=cnt(self.yaml_node.pairs, attribute,
+                                    len(self.yaml_node.pairs)) > 1)
+    raises(ValueError, when=has(self.yaml_node, attribute)
+           and not is_scalar_type(typ) and typ != T_PYLIST and typ != T_PYDICT)
+    ensures(implies(not has(self.yaml_node, attribute), not result))
+    ensures(implies(has(self.yaml_node, attribute) and is_scalar_type(typ),
+                    result == (self.yaml_node.pairs[
+                        at(self.yaml_node, attribute)].v.tag
+                        == scalar_tag(typ))))
+    ensures(implies(has(self.yaml_node, attribute) and typ == T_PYLIST,
+                    result == (self.yaml_node.pairs[
+                        at(self.yaml_node, attribute)].v.kind == SEQ)))
+    ensures(implies(has(self.yaml_node, attribute) and typ == T_PYDICT,
+                    result == (self.yaml_node.pairs[
+                        at(self.yaml_node, attribute)].v.kind == MAP)))
